@@ -205,14 +205,56 @@ def shared_wrapper(ctx, rng):
         ctx.count("shared:" + name)
 
 
+def preused_wrapper(ctx, rng):
+    """a DiffRHS whose finite-difference Jacobian was already used on its own (the user looked at rhs.jac(t0, y0)) before systems are
+    built from it: every system still counts all the calls made through it, and the user's own wrapper is not charged for them"""
+    for name in ["BackwardEuler", "RadauIIA5", "ImplicitMidpoint", "RK45CKSolver"]:
+        u = Counted(False)
+        w = de.rhs_prettifier("dy = f(t, y)")(u)
+        y0 = np.array([1.0, 0.0])
+        inp = dict(kind="pre-used-wrapper", method=name)
+        try:
+            for tj in (0.3, 0.0, 0.0):      # the last look is at the time the systems start from
+                w.jac(tj, y0)
+            own = (w.nfev, w.njev)
+            ctx.oracle("wrapper-counts-its-own-calls", w.nfev == u.done and w.njev == 3, dict(inp, nfev=w.nfev, counted=u.done, njev=w.njev),
+                       what="stand-alone wrapper: nfev=%d, counted %d, njev=%d (3 requests)" % (w.nfev, u.done, w.njev))
+            d0 = u.done
+            a = de.OdeSystem(w, y0=y0, t=(0.0, 1.0), dt=0.1, rtol=1e-5, atol=1e-7)
+            a.set_method(getattr(I, name))
+            a.integrate()
+            ctx.oracle("nfev-counts-completed-calls", a.nfev == u.done - d0, dict(inp, nfev=a.nfev, counted=u.done - d0, njev=a.njev),
+                       key="pre-used-wrapper-miscounts", what="system built from a pre-used wrapper: nfev=%d but the rhs completed %d calls through it" % (a.nfev, u.done - d0))
+            ctx.oracle("user-wrapper-not-charged", (w.nfev, w.njev) == own, dict(inp, before=list(own), after=[w.nfev, w.njev]),
+                       what="the user's own wrapper counters moved from %r to %r while the system ran" % (own, (w.nfev, w.njev)))
+            a.reset()
+            d1 = u.done
+            a.integrate()
+            ctx.oracle("nfev-counts-completed-calls", a.nfev == u.done - d1, dict(inp, after="reset", nfev=a.nfev, counted=u.done - d1),
+                       key="pre-used-wrapper-miscounts", what="after reset: nfev=%d but the rhs completed %d calls" % (a.nfev, u.done - d1))
+        except Exception as e:
+            ctx.oracle("pre-used-wrapper-run", False, inp, what="raised %r" % (e,))
+        ctx.count("pre-used:" + name)
+
+
 def callback_dt(ctx, rng):
+    import random as _random
+    rng2 = _random.Random(ctx.seed * 104729 + 20)
     scs, lines = [], []
-    for i in range(40 if ctx.quick() else 400):
-        cls = getattr(I, rng.choice(["RK4Solver", "EulerSolver", "RK45CKSolver", "SymplecticEulerSolver"]))
-        t0, tf = rng.choice([(0.0, 2.0), (-1.0, 1.0), (2.0, 0.5), (1.0, -1.0)])
-        dt = abs(tf - t0) / rng.choice([6, 9, 14])
-        cb = {k: dt * rng.choice([0.5, 0.25, 1.5, -0.5]) for k in rng.sample(range(0, 6), rng.randint(1, 3))}
-        sc = loopsim.Scenario(cls, [("new", t0, tf, dt), ("int", None, dict(cb_dt=cb))], rtol=1e-6, atol=1e-8)
+    n_main = 40 if ctx.quick() else 400
+    for i in range(n_main + n_main // 2):
+        beyond = i >= n_main       # the target of the call lies beyond the end of the constructor's span: own random stream
+        r = rng2 if beyond else rng
+        cls = getattr(I, r.choice(["RK4Solver", "EulerSolver", "RK45CKSolver", "SymplecticEulerSolver"]))
+        t0, tf = r.choice([(0.0, 2.0), (-1.0, 1.0), (2.0, 0.5), (1.0, -1.0)])
+        dt = abs(tf - t0) / r.choice([6, 9, 14])
+        cb = {k: dt * r.choice([0.5, 0.25, 1.5, -0.5]) for k in r.sample(range(0, 6), r.randint(1, 3))}
+        if beyond:
+            t0, tf_sys = t0, t0 + (tf - t0) * r.choice([0.2, 0.35])
+            sc = loopsim.Scenario(cls, [("new", t0, tf_sys, dt), ("int", tf, dict(cb_dt=cb))], rtol=1e-6, atol=1e-8)
+            ctx.count("callback-dt:target-beyond-span")
+        else:
+            sc = loopsim.Scenario(cls, [("new", t0, tf, dt), ("int", None, dict(cb_dt=cb))], rtol=1e-6, atol=1e-8)
         try:
             sc.run_impl()
         except loopsim.BudgetExceeded:
@@ -237,6 +279,7 @@ def run(ctx):
     wrapper_ops(ctx, ctx.rng)
     run_counts(ctx, ctx.rng)
     shared_wrapper(ctx, ctx.rng)
+    preused_wrapper(ctx, ctx.rng)
     callback_dt(ctx, ctx.rng)
 
 
